@@ -60,6 +60,11 @@ def tuple_exemplars():
     out.append(("tuple", [("a", ("tuple", [("a", ("int", 0)), ("b", ("str", ""))])), ("b", ("int", 0))]))
     out.append(("tuple", [("a", ("tuple", [("a", ("tuple", [("a", ("str", ""))]))]))]))
     out.append(("tuple", [("a", ("list", [("int", 0)]))]))
+    # exemplars that do not mention the first field of the values
+    out.append(("tuple", [("b", ("str", ""))]))
+    out.append(("tuple", [("b", ("int", 0))]))
+    out.append(("tuple", [("c", ("bool", True))]))
+    out.append(("tuple", [("b", ("str", "")), ("c", ("bool", True))]))
     return out
 
 
@@ -125,10 +130,19 @@ def values():
           ("expr", "1 + 1", ("int", 2)), ("expr", "incr(1)", ("int", 2)), ("expr", 'select ("a", 0) => {a = 2}', ("int", 2)),
           ("expr", '"a" + ""', ("str", "a")), ("expr", "1.5 + 1.5", ("float", 3.0)), ("expr", "mk(1)", ("tuple", [("a", ("int", 1))])),
           ("expr", "[1] + [2]", ("list", [("int", 1), ("int", 2)])), ("expr", "4 * 2", ("int", 8)), ("expr", "ident(3)", ("int", 3))]
+    # the same values reaching the binding without a static shape the checker could use: only the
+    # run-time check stands between them and the binding
+    for v in list(vs):
+        if v[0] == "expr":
+            continue
+        vs.append(("expr", "hide(%s)" % lit(v), v, "opaque-identity"))
+        vs.append(("expr", "[0.5, %s].1" % lit(v), v, "mixed-list-element"))
+        vs.append(("expr", "pick({a = %s})" % lit(v), v, "field-of-argument"))
     return vs
 
 
-PRELUDE = "let incr = func (p) => p + 1;\nlet ident = func (p) => p;\nlet mk = func (p) => {a = p};\n"
+PRELUDE = ("let incr = func (p) => p + 1;\nlet ident = func (p) => p;\nlet mk = func (p) => {a = p};\n"
+           "let hide = func (p) => select (\"a\", NULL) => {a = p};\nlet pick = func (t) => t.a;\n")
 
 
 # ---------------------------------------------------------------------------------------------
@@ -189,7 +203,36 @@ def admitted(c, v):
 
 # ---------------------------------------------------------------------------------------------
 
-SPELLINGS = ["inline", "named", "let-exemplar"]
+SPELLINGS = ["inline", "named", "let-exemplar", "named-alias", "named-composed-left", "named-composed-right", "through-constrained-binding",
+             "through-constrained-binding-2"]
+
+
+def own_constraints(v):
+    """constraints the value itself conforms to (for the binding it passes through first)"""
+    v = value_of(v)
+    k = v[0]
+    if k == "int":
+        return ["0", "in ..100"]
+    if k == "float":
+        return ["0.0", "in ..100.0"]
+    if k == "str":
+        return ['""', '"%s" | "zz"' % v[1]]
+    if k == "bool":
+        return ["true", "false"]
+    if k == "tuple":
+        zero = lambda x: {"int": ("int", 0), "float": ("float", 0.0), "str": ("str", ""), "bool": ("bool", True)}.get(x[0], x)
+        def z(x):
+            if x[0] == "tuple":
+                return ("tuple", [(n, z(y)) for n, y in x[1]])
+            if x[0] == "list":
+                return ("list", [z(y) for y in x[1]])
+            return zero(x)
+        full = z(v)
+        first = ("tuple", full[1][:1])
+        return [lit(first), lit(full)]
+    if k == "list":
+        return ["[]", lit(v)]
+    return []
 
 
 def program(c, v, spelling):
@@ -202,6 +245,24 @@ def program(c, v, spelling):
         if c[0] != "ex":
             return None
         return PRELUDE + "let Shape = %s;\nlet x :: Shape = %s;\n" % (cs, vs)
+    if spelling == "named-alias":
+        return PRELUDE + "constraint c1 = %s;\nconstraint cc = c1;\nlet x :: cc = %s;\n" % (cs, vs)
+    if spelling in ("named-composed-left", "named-composed-right"):
+        # an alternation split over two named constraints must admit what the whole admits
+        if c[0] != "alt" or len(c[1]) < 2:
+            return None
+        arm = lambda a: range_src(a) if a[0] == "range" else lit(a[1])
+        if spelling == "named-composed-left":
+            return PRELUDE + "constraint c1 = %s;\nconstraint cc = c1 | %s;\nlet x :: cc = %s;\n" % (" | ".join(arm(a) for a in c[1][:-1]), arm(c[1][-1]), vs)
+        return PRELUDE + "constraint c1 = %s;\nconstraint cc = %s | c1;\nlet x :: cc = %s;\n" % (" | ".join(arm(a) for a in c[1][1:]), arm(c[1][0]), vs)
+    if spelling.startswith("through-constrained-binding"):
+        # the value first passes a binding whose constraint it satisfies; what the second binding
+        # admits must not depend on that
+        own = own_constraints(v)
+        i = 1 if spelling.endswith("-2") else 0
+        if len(own) <= i or v[0] == "expr":
+            return None
+        return PRELUDE + "let y :: %s = %s;\nlet x :: %s = y;\n" % (own[i], vs, cs)
     raise ValueError(spelling)
 
 
@@ -296,11 +357,14 @@ def cclass(c):
 def run(ctx):
     cons = list(constraints())
     vals = values()
-    ctx.bounds = {"constraints": len(cons), "values": len(vals), "spellings": 3}
+    ctx.bounds = {"constraints": len(cons), "values": len(vals), "spellings": len(SPELLINGS)}
     ctx.rule = ("full cross product of %d constraints (4 primitive, %d tuple and %d list exemplars; closed and half-open int and float ranges over "
                 "bounds {1, 3}; alternations of 1..4 arms from {\"a\", \"b\", 1, 8, in 1..3, in 5..6}) x %d values (every type; sub-, super-, equal, "
                 "disjoint and wrong-typed tuples and lists; range boundaries lo-1, lo, mid, hi, hi+1 in int and float; computed values; NULL) "
-                "x {inline, named constraint, let-bound exemplar}, each built as a file (checker + VM). All programs distinct; non-trivial = "
+                "and each literal value again behind an opaque identity, as an element of a mixed list and as a field of a function argument, where "
+                "the checker has no static shape) x {inline, named constraint, let-bound exemplar, named alias of a named constraint, an "
+                "alternation split over two named constraints (either side), the value first passing another binding whose constraint it "
+                "satisfies (two such constraints per type)}, each built as a file (checker + VM). All programs distinct; non-trivial = "
                 "the build gave a verdict." % (len(cons), len(tuple_exemplars()), len(LIST_EXEMPLARS), len(vals)))
     viol = []
     items = [(cls, c, v) for cls, c in cons for v in vals]
@@ -314,7 +378,11 @@ def run(ctx):
     viol.sort(key=lambda v: len(v[5]))
     seen = {}
     for cls, c, v, sp, kind, src, det in viol:
-        sig = "%s:%s:%s <- %s%s" % (kind, sp, cclass(c), vclass(v), " (computed)" if v[0] == "expr" else "")
+        if kind == "spellings-disagree" and isinstance(det, dict):
+            # name the spellings that deviate from the inline form (or from the majority)
+            ref = det.get("inline", max(set(det.values()), key=list(det.values()).count))
+            sp = "+".join(k for k, x in sorted(det.items()) if x != ref)
+        sig = "%s:%s:%s <- %s%s" % (kind, sp, cclass(c), vclass(v), (" (%s)" % (v[3] if len(v) > 3 else "computed")) if v[0] == "expr" else "")
         if sig in seen:
             ctx.violations[sig]["count"] += 1
             continue
